@@ -92,12 +92,17 @@ type rawPeer struct {
 	pkts     []*floodsub.Packet
 	lastRecv time.Time
 	closed   bool
+	delay    time.Duration // slow reader
 }
 
 // attachRaw adds a peer stream to fs whose other end is a raw peer with identity key.
 func attachRaw(fs *floodsub.FloodSub, key keyInfo, linkID uint64) *rawPeer {
+	return attachRawSlow(fs, key, linkID, 0)
+}
+
+func attachRawSlow(fs *floodsub.FloodSub, key keyInfo, linkID uint64, delay time.Duration) *rawPeer {
 	a, b := net.Pipe()
-	rp := &rawPeer{sess: stream_packet.NewSession(b, maxMsg), conn: b}
+	rp := &rawPeer{sess: stream_packet.NewSession(b, maxMsg), conn: b, delay: delay}
 	go rp.readLoop()
 	fs.AddPeerStream(pubsub.PeerLinkTuple{PeerID: key.id, LinkID: linkID}, false, &fakeMS{conn: a, pid: key.id})
 	return rp
@@ -111,6 +116,9 @@ func (r *rawPeer) readLoop() {
 			r.closed = true
 			r.mu.Unlock()
 			return
+		}
+		if r.delay > 0 {
+			time.Sleep(r.delay)
 		}
 		r.mu.Lock()
 		r.pkts = append(r.pkts, p)
